@@ -18,6 +18,8 @@ From crates/usvg/src/parser/{converter.rs, switch.rs, shapes.rs, svgtree/mod.rs,
   attr_ns_kept            namespaces whose attributes parse_svg_element copies
   valid_ts_tests          the conjuncts of the final test of SvgNode::has_valid_transform (tiny-skia is_valid; determinant above
                           f32::EPSILON relative to |ad| + |bc|, as of 427fd1e)
+  sys_lang_rules          switch.rs is_valid_sys_lang: an entry matches a user language exactly, or its part before the first `-` does;
+                          (a plain starts_with would be LR_StartsWith)
   filter_facts            parser/filter.rs create_base_filter_func: without an object bbox the closure returns before anything is
                           generated; cache.gen_filter_id() is called once, after the region was computed
   special_attr_lookups    how the `style`, `id` and `class` XML attributes are looked up (plain-string roxmltree lookup =
@@ -108,6 +110,7 @@ DEFAULTS = {
     'gen_prefixes': 'list string := ["linearGradient"; "radialGradient"; "pattern"; "clipPath"; "mask"; "filter"; "image"]',
     'attr_ns_kept': 'list attr_ns := [ANS_None; ANS_Svg; ANS_Xlink; ANS_Xml]',
     'valid_ts_tests': 'list ts_test := [TT_IsValid; TT_DetRelTol]',
+    'sys_lang_rules': 'list lang_rule := [LR_Exact; LR_PrefixDash]',
     'filter_facts': 'list filter_fact := [FF_NoBBoxReturnsEarly; FF_GenIdAfterRegionCheck]',
     'special_attr_lookups': 'list (special_attr * lookup_kind) := [(SA_Style, LK_NoNamespace); (SA_Id, LK_NoNamespace); (SA_Class, LK_NoNamespace)]',
     'style_element_lookup': 'lookup_kind := LK_SvgNamespace',
@@ -492,3 +495,20 @@ def extract(api, src, put, group):
         if len(facts) != 2:
             raise Miss("filter.rs create_base_filter_func: the filter id is generated before the bounding box / region checks (%s)" % ', '.join(facts))
     group(sec_filter_func)
+
+    def sec_sys_lang():  # is_valid_sys_lang
+        b = body_of(api, sw, 'is_valid_sys_lang')
+        need(r"if let Some\(langs\) = node\.attribute::<&str>\(AId::SystemLanguage\) \{ let mut has_match = false; "
+             r"for lang in langs\.split\(','\) \{ let lang = lang\.trim\(\);", b, "is_valid_sys_lang: comma list, trimmed entries")
+        need(r"has_match \} else \{ true \} \}$", b, "is_valid_sys_lang: result")
+        found = [
+            ('LR_Exact', re.search(r"if opt\.languages\.iter\(\)\.any\(\|v\| v == lang\) \{ has_match = true; break; \}", b)),
+            ('LR_PrefixDash', re.search(r"if let Some\(idx\) = lang\.bytes\(\)\.position\(\|c\| c == b'-'\) \{ let lang_prefix = &lang\[\.\.idx\]; "
+                                        r"if opt\.languages\.iter\(\)\.any\(\|v\| v == lang_prefix\) \{ has_match = true; break; \} \}", b)),
+            ('LR_StartsWith', re.search(r"if opt\.languages\.iter\(\)\.any\(\|v\| lang\.starts_with\(v(?:\.as_str\(\))?\)\) \{ has_match = true; break; \}", b)),
+        ]
+        rules = [n for n, m in sorted([(n, m) for n, m in found if m], key=lambda x: x[1].start())]
+        if len(re.findall(r"has_match = true", b)) != len(rules) or not rules:
+            raise Miss("is_valid_sys_lang: %d `has_match = true` sites, %d recognised rules" % (len(re.findall(r'has_match = true', b)), len(rules)))
+        put('sys_lang_rules', 'list lang_rule', coq_list(rules))
+    group(sec_sys_lang)
